@@ -63,6 +63,7 @@ SUGGEST = {
     6: 'a unit or scale convention (fs vs s, Angstrom vs m, per-atom vs per-cell, frames vs time, n vs n-1 in a denominator) that coincides in the common case; an aggregation over a group that silently assumes the group is non-empty, sorted, unique or contiguous; a comparison that should be strict / non-strict exactly at a threshold the user passes; state kept at module or class level (a default mutable argument, a class attribute used as a scratch buffer, a global registry) so that one call or one object influences the next; an argument that is honoured on the first call but ignored on later ones; a copy that became a view (or a view that became a copy) so that results alias each other or the input; symmetric treatment of something asymmetric (a transposed matrix, swapped axes of a non-cubic grid, row vs column vectors of the lattice); a tolerance / epsilon introduced "for robustness" that changes results near but not at a boundary; iteration order of a dict / set / groupby that is assumed to be sorted; integer overflow or float precision loss in an index computation (flattened indices, packed keys); behaviour for the LAST element, frame, atom, site or part only.',
 }
 SUGGEST[7] = 'a shape coincidence that hides an axis mix-up (n_atoms == n_frames, n_atoms == 3, n_sites == n_atoms, a single frame, a single atom of a species, square vs non-square tables); truthiness of numbers and arrays (`if radius:` with 0.0, `x or default`, `if arr:`), `is` vs `==`, default arguments evaluated once at definition time; vectorising a loop with a subtly different broadcast, reduction axis, keepdims or order of operations; numerical stability (catastrophic cancellation, accumulation in float32, summation order, mean of huge numbers, log of tiny numbers) that matters only for long runs or large offsets; ties and stability in sorting / argmin / unique / digitize (equal distances, equal times, equal energies, duplicate rows); NaN / inf / negative zero propagation through min, max, sort, comparisons; integer division, floor vs truncation for negative values, modulo of negative numbers; handling of an empty selection, an empty table, zero counts, all-equal data; sampling or striding introduced as a speed-up (every k-th frame, early exit of a search, a cut-off on the number of neighbours or images) that is exact for small cases only; an exception or warning swallowed by a broad except so that a fallback result is returned silently; keyword arguments that are accepted but not forwarded by a wrapper, or forwarded under the wrong name; mutable objects (lists, dicts, DataFrames, Structures) stored by reference and changed later by the caller or by the library.'
+SUGGEST[8] = 'a pandas pitfall (groupby silently dropping NaN keys or re-sorting, integer columns upcast to float when a NaN appears, merge / join duplicating or dropping rows, chained assignment on a copy, index vs position after filtering, sort that is not stable); a numpy pitfall (advanced indexing with repeated indices, boolean mask of the wrong length broadcast silently, integer division or integer overflow in an intermediate, np.unique / np.sort changing the order the caller relies on, in-place operation casting to the dtype of the left operand, np.round half-to-even, np.digitize / searchsorted side); a networkx pitfall (missing edge attribute treated as weight 1, DiGraph vs Graph, attribute name typos that fall back to defaults, node relabelling, multi-source searches); a pymatgen pitfall (Lattice row vs column convention, get_all_distances vs get_distance_and_image, Structure site ordering after sort / from_spacegroup / merge_sites, coords_are_cartesian, to_unit_cell, species strings with oxidation states); the returned object itself (a list where an array is promised, a view where a copy is promised, lost units, a DataFrame with other column names / dtypes / index, an attribute computed at construction that goes stale); the FIRST or LAST frame, event, jump, part or bin treated specially; time expressed in frames in one place and in seconds / femtoseconds in another; a default value changed in only one of two entry points; results that depend on the order in which the user passes species, sites or files; anything that works for 2 or 3 items but not for 1, or for many.'
 NOTES = {
     'C18': 'Note: fft_autocorrelation is already known to deviate from the definition for lags > 0 (inverse FFT length) and symmetrize(sym_ops=<single 2-D matrix>) is known to mishandle a single matrix; do not rely on those.',
     'C20': 'Note: Jumps.collective() is already known to keep its Jumps alive through the cached Collective; do not rely on that.',
